@@ -51,8 +51,8 @@ SignOK(ev, e) ==
           \* encoding of a valid value may be refused or honoured.)
           IF Len(ev.priv) > 32 /\ ValidNum(ev.priv) /\ ev.err = ""
           THEN f.kind = "sig" /\ ev.r = B32(f.r) /\ ev.s = B32(f.s)
-          ELSE ev.err # "" /\ ev.nil_out /\ consumed = 0
-     ELSE IF Len(ev.priv) < 32 /\ ev.err # "" /\ consumed = 0 THEN ev.nil_out    \* short encodings may be refused
+          ELSE ev.err # "" /\ ev.nil_out          \* (whether anything was drawn before the refusal is not prescribed)
+     ELSE IF Len(ev.priv) < 32 /\ ev.err # "" THEN ev.nil_out    \* short encodings may be refused
      ELSE CASE f.kind = "sig" -> /\ ev.err = "" /\ ev.r = B32(f.r) /\ ev.s = B32(f.s)
                                  /\ consumed = R!Delivered(f.log) /\ consumed = 32 * f.tries
             [] f.kind = "err" -> ev.err # "" /\ ev.nil_out /\ consumed = R!Delivered(f.log)
@@ -126,7 +126,7 @@ Expect(s, ev) ==
                     why |-> "signza: " \o SignWhy(ev, e)]
            [] ev.kind = "id" ->
                 IF ~IdOKev(ev)
-                THEN [st |-> s, ok |-> ev.panic = "" /\ ev.err # "" /\ ev.nil_out /\ R!Delivered(ev.reads) = 0,
+                THEN [st |-> s, ok |-> ev.panic = "" /\ ev.err # "" /\ ev.nil_out,
                       why |-> "signid: id length limit"]
                 ELSE LET e == Eof(ZAof(ev.id, ev.pubx, ev.puby), ev.msg)
                      IN [st |-> s, ok |-> ev.panic = "" /\ SignOK(ev, e)
